@@ -148,6 +148,7 @@ def random_scene(
     dispersive_prob=0.0,
     first_source=None,
     plane_prob=0.45,
+    allowed_mats=None,
 ):
     """Returns (scene, tags) — tags is a dict of class labels used for coverage signatures."""
     step = 2 if even else 1
@@ -172,7 +173,7 @@ def random_scene(
     # material boxes (anywhere in the volume, may overlap each other and the PML)
     mats, mat_classes = [], []
     for i in range(_int(rng, 1, 2)):
-        m, cls = random_material(rng)
+        m, cls = random_material(rng, cls=None if allowed_mats is None else allowed_mats[_int(rng, 0, len(allowed_mats) - 1)])
         if rng.random() < dispersive_prob:
             # modest Lorentz / Drude pole around the source band; the Courant factor is lowered because
             # the coupled stability bound of dispersive media leaves no head-room at 0.99
